@@ -182,6 +182,11 @@ impl GsNode {
         }
     }
 
+    /// environment fault: the peer's connection stalls with a full control queue (hook)
+    pub fn stall(&mut self, peer: &PeerId) -> usize {
+        self.beh.verif_fill_control_queue(peer)
+    }
+
     /// what the real handler of the peer's oldest live connection believes (`in_mesh`,
     /// observable as keep-alive)
     pub fn handler_in_mesh(&self, peer: &PeerId) -> Option<bool> {
